@@ -844,8 +844,15 @@ impl<'a> Harness<'a> {
 			Ok(()) => {
 				outcome = "ok".to_string();
 				self.run.count("admitted", 1);
+				// the height that counts for a txpool entry is the one at which it entered the txpool
+				// (a stem transaction is decided again when it is fluffed)
+				let entered_txpool = post_tx.iter().any(|h| !pre_tx.contains(h));
 				for k in s.eff.kernels() {
-					self.admitted_at.entry(k.hash()).or_insert(admit_h);
+					if entered_txpool {
+						self.admitted_at.insert(k.hash(), admit_h);
+					} else {
+						self.admitted_at.entry(k.hash()).or_insert(admit_h);
+					}
 				}
 				// evictions: txpool entries that disappeared, or the admitted tx itself gone
 				let gone = pre_tx.iter().filter(|h| !post_tx.contains(h)).count();
